@@ -232,6 +232,7 @@ func (x *unifierUser) Check(fail, _ bool) bool {
 	}
 	return err == nil
 }
+
 // CheckCancelled is a working forced check whose caller has already gone away (its context is done).
 func (x *unifierUser) CheckCancelled() error {
 	x.disc.mu.Lock()
